@@ -177,6 +177,33 @@ class Monitor:
         optimize.Optimize.make_atom_with_no_bonds = nb
         self._undo.append(lambda: setattr(optimize.Optimize, "make_atom_with_no_bonds", orig_nb))
 
+        orig_rbt = aa.Amino.rebuild_tetrahedral
+        mon.thirds = []
+
+        def rbt(self_, atomname):
+            rec = None
+            try:
+                atomref = self_.reference.map.get(atomname)
+                bondname = atomref.bonds[0] if atomref is not None and atomref.bonds else None
+                if bondname is not None and self_.has_atom(bondname):
+                    refb = self_.reference.map[bondname].bonds
+                    nxt = [b for b in refb if not b.startswith("H") and b not in ("C-1", "N+1")]
+                    if sum(1 for b in refb if b.startswith("H")) == 3 and nxt and self_.has_atom(nxt[-1]):
+                        bondatom = self_.get_atom(bondname)
+                        hs = [self_.get_atom(b) for b in bondatom.reference.bonds if self_.has_atom(b) and b.startswith("H")]
+                        if len(bondatom.bonds) == 3 and len(hs) == 2 and len(mon.thirds) < mon.max_t:
+                            rec = {"next": tuple(map(float, self_.get_atom(nxt[-1]).coords)), "bond": tuple(map(float, bondatom.coords)), "h0": tuple(map(float, hs[0].coords)), "h1": tuple(map(float, hs[1].coords)), "residue": self_, "name": atomname}
+            except Exception:  # noqa: BLE001
+                rec = None
+            out = orig_rbt(self_, atomname)
+            if rec is not None and out and self_.has_atom(atomname):
+                rec["new"] = tuple(map(float, self_.get_atom(atomname).coords))
+                mon.thirds.append(rec)
+            return out
+
+        aa.Amino.rebuild_tetrahedral = rbt
+        self._undo.append(lambda: setattr(aa.Amino, "rebuild_tetrahedral", orig_rbt))
+
         def wrap_create(klass):
             if "create_atom" not in klass.__dict__:
                 return
